@@ -80,6 +80,10 @@ theorem failed_acquisition_ok (w : World) (op : Op) (k : Nat) :
     source on every run) nests only pod ⊃ workload; node-operation locks are never nested. -/
 theorem nesting_ok : ∀ s ∈ nestingTable, allowedNesting s.outer s.inner = true := by decide
 
+/-- the Go code sorts the *formatted* key strings; inside one group they share the prefix, so their
+    order is the order of the names the model sorts -/
+theorem formatted_key_order (pfx a b : String) : pfx ++ a < pfx ++ b ↔ a < b := prefix_lt_iff pfx a b
+
 /-- threads that run episodes of cluster operations, started holding nothing -/
 def threadsOf (eps : List Trace) : List (Thread Key) := eps.map fun ep => ⟨[], ep⟩
 
